@@ -801,6 +801,11 @@ impl<'a, P: ProcessRun> PubPoint<'a, P> {
         // adds randomness to visiting the repositories, reducing peak load.
         let mut items_random: Vec<_> = collected.content.iter().collect();
         items_random.shuffle(&mut rand::rng());
+        #[cfg(routinator_verif)]
+        if crate::verif::switch("sort-manifest-entries") {
+            // Hook H8: process the entries in file name order.
+            items_random.sort_by(|l, r| l.file().cmp(r.file()));
+        }
         let mut items = items_random.into_iter();
 
         let mut point_ok = true;
